@@ -437,6 +437,37 @@ def _links(ctx: Ctx, item=None):
             ctx.report("C20|own-packet-received|packet-lost", f"the application sent a heading message and the same 20 bytes arrive twice in a clean stream: delivered SIDs {got}, "
                        f"expected [0, 7, 1, 7]", {"two_links": "echo"})
     ctx.klass("reconnect_scenarios", n)
+    # (c) packets with a correct marker and checksum that the decoder cannot turn into a message (a PGN it has no single/fast codec for,
+    # an empty fast-packet frame, an unknown PGN, a one-byte address claim): nothing is delivered for them, everything else is, the link stays
+    odd = {"iso-transport-pgn-65240": wire.usb(wire.ident(65240, 9, 255, 6), bytes(range(8))),
+           "empty-fast-packet-frame": wire.usb(wire.ident(129029, 9, 255, 3), b""),
+           "one-byte-fast-packet-frame": wire.usb(wire.ident(129029, 9, 255, 3), b"\x20"),
+           "unknown-pgn": wire.usb(wire.ident(65000, 9, 255, 3), bytes(8)),
+           "out-of-range-value": wire.usb(wire.ident(127250, 9, 255, 2), bytes([1, 0xFE, 0xFF, 0, 0, 0, 0, 0xFF])),
+           "proprietary-without-definition": wire.usb(wire.ident(65285, 9, 255, 3), (229 | 3 << 11 | 4 << 13).to_bytes(2, "little") + bytes(6))}
+    for name, x in odd.items():
+        stream = valid_packet(1) + x + valid_packet(2) + valid_packet(3)
+        for piece in (len(stream), 20, 7, 1):
+            s_ = aio.Session("waveshare", connect_plan=[("accept",), ("accept",)])
+
+            async def main(s_, stream=stream, piece=piece):
+                c = s_.make_client()
+                await c.connect()
+                await asyncio.sleep(0.05)
+                for i in range(0, len(stream), piece):
+                    s_.gw.link.feed(stream[i:i + piece])
+                    await asyncio.sleep(0.01)
+                await asyncio.sleep(1.0)
+                s_.final_state = c.state.name
+                await c.close()
+            outcome = s_.run(main)
+            ctx.count()
+            ctx.nontrivial_extra += 1
+            got = [next((f.raw_value for f in m.fields if f.id == "sid"), None) for _, m in s_.received if m.PGN == 127250]
+            if outcome != "ok" or got != [1, 2, 3] or len(s_.gw.links) != 1 or getattr(s_, "final_state", None) != "CONNECTED":
+                ctx.report(f"C20|undecodable-valid-packet|{name}", f"a packet with correct marker and checksum that decodes to no message ({name}) between valid packets, reads of "
+                           f"{piece} bytes: delivered SIDs {got} (expected [1, 2, 3]), {len(s_.gw.links)} connection(s), state {getattr(s_, 'final_state', None)}",
+                           {"two_links": "odd:" + name})
 
 
 def _send_then_receive(stream):
